@@ -24,6 +24,7 @@ inductive Session where
   | fmap (set : List FifoMap.State)
   | cmap (set : List CMap.State)
   | ctx (set : List Context.State)
+  | outer (set : List OuterCancel.State)
 
 def answer (n : Nat) (line : String) : String :=
   if n == 0 then s!"reject {line.trimAscii.toString}" else s!"ok {n}"
@@ -100,6 +101,33 @@ def parseCtx (l : Line) : Option Context.L :=
     some (.ret t ((l.nat? "v").getD 0 != 0))
   | _ => none
 
+def parseOuter (l : Line) : Option OuterCancel.L :=
+  match l.op with
+  | "env" =>
+    match l.get? "e" with
+    | some "shutdown" => some (.env .shutdown)
+    | some "tick" => some (.env .tick)
+    | some "cancel" => do let t ← l.nat? "t"; some (.env (.cancelParent t))
+    | _ => none
+  | "call" => do
+    let t ← l.nat? "t"
+    match l.get? "op" with
+    | some "lock" => some (.call t .lock)
+    | some "unlock" => some (.call t .unlock)
+    | some "rlock" => do let pre ← l.nat? "pre"; some (.call t (.rlock (pre != 0)))
+    | some "runlock" => some (.call t .runlock)
+    | _ => none
+  | "ret" => do
+    let t ← l.nat? "t"
+    some (.ret t ((l.nat? "v").getD 0))
+  | "probe" => do
+    let t ← l.nat? "t"
+    match l.get? "p" with
+    | some "cancelled" => do let v ← l.nat? "v"; some (.probe t (.cancelled (v != 0)))
+    | some "live" => some (.probe t .notCancelled)
+    | _ => none
+  | _ => none
+
 def startSession (l : Line) : Session × String :=
   let n := (l.nat? "n").getD 0
   let keys := (l.nat? "keys").getD 1
@@ -114,6 +142,10 @@ def startSession (l : Line) : Session × String :=
     let rc := (l.nat? "rc").getD 1 != 0
     let set := CMap.sim.start fuel (CMap.init rc n keys)
     (.cmap set, s!"ok {set.length}")
+  | some "outer" =>
+    let g := (l.nat? "grace").getD 1
+    let set := OuterCancel.sim.start fuel (OuterCancel.init n g)
+    (.outer set, s!"ok {set.length}")
   | some "context" =>
     let set := Context.sim.start fuel (Context.init n)
     (.ctx set, s!"ok {set.length}")
@@ -141,6 +173,7 @@ def stepLine (sess : Session) (raw : String) : Session × String :=
                 (if set'.isEmpty then .dead else .cmap set', answer set'.length raw)
     | none => (sess, "error parse")
   | .ctx _ => (sess, "error internal")
+  | .outer _ => (sess, "error internal")
 
 def stepLine2 (sess : Session) (raw : String) : Session × String :=
   let l := parseLine raw
@@ -150,6 +183,12 @@ def stepLine2 (sess : Session) (raw : String) : Session × String :=
     match parseCtx l with
     | some a => let set' := Context.sim.observe fuel set a
                 (if set'.isEmpty then .dead else .ctx set', answer set'.length raw)
+    | none => (sess, "error parse")
+  | .outer set =>
+    if l.op == "new" then startSession l else
+    match parseOuter l with
+    | some a => let set' := OuterCancel.sim.observe fuel set a
+                (if set'.isEmpty then .dead else .outer set', answer set'.length raw)
     | none => (sess, "error parse")
   | _ => stepLine sess raw
 
